@@ -8,6 +8,7 @@ import Mashu.ToDict
 import Mashu.Args
 import Mashu.Resolve
 import Mashu.Quote
+import Mashu.Discr
 import Mashu.Generated
 open Lean
 
@@ -136,6 +137,42 @@ def dispatchResolve (j : Json) : Except String Json := do
   pure (Json.mkObj [("ser", ofM (Resolve.resolveImpl ko so .ser L)), ("de", ofM (Resolve.resolveImpl ku so .de L)),
                     ("spec_ser", ofM (Resolve.resolveSpec .ser L)), ("spec_de", ofM (Resolve.resolveSpec .de L))])
 
+/-- C12: discriminated unions over a history of define / decode events -/
+def dispatchDiscr (op : String) (j : Json) : Except String Json := do
+  let nat (x : Json) : Except String Nat := match x with
+    | .num n => if n.exponent == 0 && n.mantissa ≥ 0 then pure n.mantissa.toNat else throw "bad nat"
+    | _ => throw "bad nat"
+  let optNat (x : Json) : Except String (Option Nat) := match x with
+    | .null => pure none
+    | y => do pure (some (← nat y))
+  let optStr (x : Json) : Except String (Option String) := match x with
+    | .str t => pure (some t)
+    | .null => pure none
+    | _ => throw "bad tag"
+  let toCls (x : Json) : Except String Discr.Cls := do
+    let a ← arr x
+    pure { id := ← nat a[0]!, parent := ← optNat a[1]!, tag := ← optStr a[2]! }
+  let ofO (o : Discr.Outcome) : Json := match o with
+    | .inst c => Json.str s!"inst:{c}"
+    | .missingDiscriminator => Json.str "missing"
+    | .noVariant => Json.str "novariant"
+  let sup : Discr.Mode := { sub := getB j "subtypes" true, sup := getB j "supertypes" }
+  match op with
+  | "discr" => do
+      let evs ← (← arr (j.getObjValD "events")).toList.mapM (fun e => do
+        match e.getObjVal? "d" with
+        | .ok c => do pure (Discr.Event.define (← toCls c))
+        | .error _ => do
+            let a ← arr (e.getObjValD "q")
+            pure (Discr.Event.decode (← nat a[0]!) (← optStr a[1]!)))
+      pure (Json.mkObj [("impl", Json.arr ((Discr.run sup {} evs).map ofO).toArray),
+                        ("spec", Json.arr ((Discr.runSpec sup [] evs).map ofO).toArray)])
+  | _ => do
+      let cs ← (← arr (j.getObjValD "classes")).toList.mapM toCls
+      let acc ← (← arr (j.getObjValD "accepts")).toList.mapM nat
+      let root ← nat (j.getObjValD "root")
+      pure (Json.mkObj [("out", ofO (Discr.noField cs root sup (fun c => acc.contains c)))])
+
 def natList (j : Json) : Except String (List Nat) := do
   (← arr j).toList.mapM (fun x => match x with
     | .num n => if n.exponent == 0 && n.mantissa ≥ 0 then pure n.mantissa.toNat else throw "bad code point"
@@ -169,6 +206,7 @@ def dispatch (j : Json) : Except String Json := do
   | "args" => dispatchArgs j
   | "resolve" => dispatchResolve j
   | "pyrepr" | "pylex" => dispatchQuote op j
+  | "discr" | "discrnf" => dispatchDiscr op j
   | _ => throw s!"unknown op {op}"
 
 end Mashu
